@@ -69,7 +69,12 @@ CLAIM = {
             'State.init is none), generated_fill_reads_match_model (the lazy caches of the source are the model\'s, '
             'each fill transitively reads exactly the fields the invariant computes it from) and '
             'generated_effects_sufficient (on the GENERATED tables: whoever writes an attribute resets or rewrites '
-            'on every normal path every derived attribute whose dependency closure contains it). A dropped or '
+            'on every normal path every derived attribute whose dependency closure contains it); '
+            'generated_tables_preserve_coherence states what that condition means without reference to the hand '
+            'model (for any value type and any coherence relations that read only the dependency closure, a call '
+            'that changes only what its generated row lists and stores None-or-coherent values in derived attributes '
+            'preserves coherence); model_effect_table_is_tight (every listed write really happens on a concrete '
+            'probe). A dropped or '
             'conditional reset, a getter that stops recomputing, or a new cached attribute that some mutator does '
             'not know breaks one of these obligations independently of the random histories.',
     'note': 'Trusted for the regeneration tie: harness/gen/_effects.py (abstract interpretation of the method bodies: '
